@@ -184,7 +184,8 @@ theorem type_step (hshape : shapeOk e.table = true) (htags : TagsOk e) (hns : No
             1 ≤ s2.pos ∧ ∃ t, e.toks[s2.pos - 1]? = some t ∧ t.ty = 6 ∧ t.text = text) ∧
           (isB = true → ht = true → ∀ t0, e.toks[s2.pos]? = some t0 → t0.ty ≠ 6) ∧
           (∀ info, info.fileid = 0 → InOrder e (.block ty info fields children comments) items) ∧
-          (∀ info, OT.posAll e.code items → Canon e (.block ty info fields children comments) items) ∧
+          (∀ info, (OT.posAll e.code items → Canon e (.block ty info fields children comments) items) ∧
+            ∃ items', OT.SibPL e.code items items' ∧ Canon e (.block ty info fields children comments) items') ∧
           ((isB = true ∨ ht = false ∨ e.toks[s2.pos]? = none) → ∀ tail, NextRel (tailFrom e s2.pos) tail → FollowId tail →
             ∀ ind, OT.idSeqOkL (mkC e lx X s.ver) ind items tail) ∧
           ((isB = true → s2.pos < e.toks.size) → OT.noBumpL false items) ∧
@@ -204,10 +205,11 @@ theorem type_step (hshape : shapeOk e.table = true) (htags : TagsOk e) (hns : No
             exact InOrder.mk (e := e) (info := info) (fields := fields) (children := []) (comments := []) (items := [])
               hl [] (by intro h; cases h) rfl (by simp) (by intro h; cases h) (by intro h; cases h) (by simp) (by simp)
               (fun _ => ⟨rfl, rfl⟩) hfid' (by simp)
-          · intro info _
+          · intro info
             have := Canon.mk (e := e) (info := info) (fields := fields) (children := []) (comments := []) hl []
               (by intro h; cases h) rfl (by simp) (by simp) (by simp) (by simp) hfs
-            simpa using this
+            simp only [Bool.false_eq_true, if_false] at this
+            exact ⟨fun _ => this, [], .nil, this⟩
         | true =>
           rw [hht] at h3 hl
           simp only [if_true] at h3
@@ -231,8 +233,8 @@ theorem type_step (hshape : shapeOk e.table = true) (htags : TagsOk e) (hns : No
             exact ⟨by omega, a2⟩
           · intro info hfid'
             exact inv'.toInOrder hl info hfid' fields
-          · intro info hpa
-            exact inv'.toCanon hl hpa info fields hfs
+          · intro info
+            exact ⟨fun hpa => inv'.toCanon hl hpa info fields hfs, inv'.toSibCanon hl info fields hfs⟩
           · intro hc ind
             refine res'.sim ?_ ind
             rcases hc with hc | hc | hc
@@ -265,7 +267,7 @@ theorem type_step (hshape : shapeOk e.table = true) (htags : TagsOk e) (hns : No
         refine ⟨_, fields, children, comments, items, false, its, arms, ht, rfl, ?_⟩
         rw [hB] at hl hwfl
         refine ⟨hf12, hl, Nat.lt_succ_self _, (by have := f2.seq; show s.seqId + 1 ≤ s'.seqId; omega), rfl, hfid,
-          (fun _ => rfl), fwf1, hnil, hwfl, hmo, hord _ hfid, hcan _, lexf1, hlexv, (fun h => by cases h), heokL,
+          (fun _ => rfl), fwf1, hnil, hwfl, hmo, hord _ hfid, (hcan _).1, (hcan _).2, lexf1, hlexv, (fun h => by cases h), heokL,
           hnb (fun h => by rw [hB] at h; cases h), ?_, ?_⟩
         · intro hc rest hnr hfi ind ind'
           have := hidkey (by rw [hB]; exact hc) rest hnr hfi ind'
@@ -283,7 +285,7 @@ theorem type_step (hshape : shapeOk e.table = true) (htags : TagsOk e) (hns : No
         rw [hB] at hl hwfl
         refine ⟨hf12.trans f3, hl, Nat.lt_succ_self _,
           (by have := f2.seq; have := f3.seq; show s.seqId + 1 ≤ s'.seqId; omega),
-          rfl, hfid, (fun h => by cases h), fwf1, hnil, hwfl, hmo, hord _ hfid, hcan _, lexf1, hlexv, ?_, heokL,
+          rfl, hfid, (fun h => by cases h), fwf1, hnil, hwfl, hmo, hord _ hfid, (hcan _).1, (hcan _).2, lexf1, hlexv, ?_, heokL,
           hnb (fun _ => hsz2), ?_, ?_⟩
         · intro _ text off' hl hline
           obtain ⟨hp1, tc, htc, h6c, htx⟩ := hlastc hB text off' hl
